@@ -304,13 +304,13 @@ Qed.
 Ltac psimpl :=
   cbn [i_key i_board i_cr i_ep i_hmc i_stm i_ksq i_nhm i_pbb i_occ i_hist i_mat i_matnp i_psqm i_psqe
        i_phase i_flag set_key set_cr set_ep set_hmc set_hist set_phase set_check_flag turn restore unturn
-       push_hist put_raw rem_raw rp mp h_key h_move h_from h_cap h_cr h_ep h_hmc h_flag fst snd].
+       push_hist put_raw rem_raw rp mp drop_castling h_key h_move h_from h_cap h_cr h_ep h_hmc h_flag fst snd].
 Ltac psimpl_in H :=
   cbn [i_key i_board i_cr i_ep i_hmc i_stm i_ksq i_nhm i_pbb i_occ i_hist i_mat i_matnp i_psqm i_psqe
        i_phase i_flag set_key set_cr set_ep set_hmc set_hist set_phase set_check_flag turn restore unturn
-       push_hist put_raw rem_raw rp mp h_key h_move h_from h_cap h_cr h_ep h_hmc h_flag fst snd] in H.
-Ltac nf := rewrite ?clear_ep_nf, ?touch_castling_nf, ?drop_castling_nf; psimpl.
-Ltac nf_in H := rewrite ?clear_ep_nf, ?touch_castling_nf, ?drop_castling_nf in H; psimpl_in H.
+       push_hist put_raw rem_raw rp mp drop_castling h_key h_move h_from h_cap h_cr h_ep h_hmc h_flag fst snd] in H.
+Ltac nf := rewrite ?clear_ep_nf, ?touch_castling_nf; psimpl.
+Ltac nf_in H := rewrite ?clear_ep_nf, ?touch_castling_nf in H; psimpl_in H.
 
 (* at_ (put ..) *)
 Ltac atp := repeat rewrite at_put by (rewrite ?put_length; (assumption || lia)).
